@@ -65,6 +65,11 @@ func (g gh[I, O]) Compile(ctx context.Context, opts ...compose.GraphCompileOptio
 		return nil, err
 	}
 	return func(ctx context.Context, input any, stream bool) (any, error) {
+		// a run under a checkpoint id (WithCheckPointID on the context): the first run of an interrupted one, or its resume
+		var ropts []compose.Option
+		if id, ok := ctx.Value(cpKey{}).(string); ok {
+			ropts = append(ropts, compose.WithCheckPointID(id))
+		}
 		drainOut := func(sr *schema.StreamReader[O]) (any, error) {
 			defer sr.Close()
 			var out any
@@ -95,7 +100,7 @@ func (g gh[I, O]) Compile(ctx context.Context, opts ...compose.GraphCompileOptio
 				}
 				ins = append(ins, in)
 			}
-			sr, err := r.Transform(ctx, schema.StreamReaderFromArray(ins))
+			sr, err := r.Transform(ctx, schema.StreamReaderFromArray(ins), ropts...)
 			if err != nil {
 				return nil, err
 			}
@@ -107,7 +112,7 @@ func (g gh[I, O]) Compile(ctx context.Context, opts ...compose.GraphCompileOptio
 			if ci.Val != nil {
 				in = ci.Val.(I)
 			}
-			out, err := r.Collect(ctx, schema.StreamReaderFromArray([]I{in}))
+			out, err := r.Collect(ctx, schema.StreamReaderFromArray([]I{in}), ropts...)
 			if err != nil {
 				return nil, err
 			}
@@ -118,13 +123,13 @@ func (g gh[I, O]) Compile(ctx context.Context, opts ...compose.GraphCompileOptio
 			in = input.(I)
 		}
 		if !stream {
-			out, err := r.Invoke(ctx, in)
+			out, err := r.Invoke(ctx, in, ropts...)
 			if err != nil {
 				return nil, err
 			}
 			return out, nil
 		}
-		sr, err := r.Stream(ctx, in)
+		sr, err := r.Stream(ctx, in, ropts...)
 		if err != nil {
 			return nil, err
 		}
@@ -141,6 +146,16 @@ func (g gh[I, O]) anyGraph() compose.AnyGraph { return g.Graph }
 func MkGraph[I, O any](opts ...compose.NewGraphOption) GraphH {
 	return gh[I, O]{compose.NewGraph[I, O](opts...)}
 }
+
+type cpKey struct{}
+
+// WithCheckPointID: the runs of an Invoker under this context are made with compose.WithCheckPointID(id)
+func WithCheckPointID(ctx context.Context, id string) context.Context {
+	return context.WithValue(ctx, cpKey{}, id)
+}
+
+// Interrupt is what emit returns when the lambda is to ask for compose.InterruptAndRerun instead of answering
+type Interrupt struct{}
 
 // CollectIn as the input of an Invoker: the value is sent as a one-chunk stream through Runnable.Collect
 type CollectIn struct{ Val any }
@@ -161,17 +176,27 @@ func MkLambda[I, O any](emit func() any, seen func(any), kind int) *compose.Lamb
 		}
 		return o
 	}
-	out := func() O { return conv(emit()) }
-	outs := func() []O {
+	out := func() (O, error) {
 		v := emit()
+		if _, ok := v.(Interrupt); ok {
+			var o O
+			return o, compose.InterruptAndRerun
+		}
+		return conv(v), nil
+	}
+	outs := func() (*schema.StreamReader[O], error) {
+		v := emit()
+		if _, ok := v.(Interrupt); ok {
+			return nil, compose.InterruptAndRerun
+		}
 		if m, ok := v.(Multi); ok {
 			var l []O
 			for _, x := range m.Vals {
 				l = append(l, conv(x))
 			}
-			return l
+			return schema.StreamReaderFromArray(l), nil
 		}
-		return []O{conv(v)}
+		return schema.StreamReaderFromArray([]O{conv(v)}), nil
 	}
 	drain := func(sr *schema.StreamReader[I]) error {
 		defer sr.Close()
@@ -190,7 +215,7 @@ func MkLambda[I, O any](emit func() any, seen func(any), kind int) *compose.Lamb
 	case 1:
 		return compose.StreamableLambda(func(ctx context.Context, in I) (*schema.StreamReader[O], error) {
 			seen(in)
-			return schema.StreamReaderFromArray(outs()), nil
+			return outs()
 		})
 	case 2:
 		return compose.CollectableLambda(func(ctx context.Context, in *schema.StreamReader[I]) (O, error) {
@@ -198,19 +223,19 @@ func MkLambda[I, O any](emit func() any, seen func(any), kind int) *compose.Lamb
 				var o O
 				return o, err
 			}
-			return out(), nil
+			return out()
 		})
 	case 3:
 		return compose.TransformableLambda(func(ctx context.Context, in *schema.StreamReader[I]) (*schema.StreamReader[O], error) {
 			if err := drain(in); err != nil {
 				return nil, err
 			}
-			return schema.StreamReaderFromArray(outs()), nil
+			return outs()
 		})
 	}
 	return compose.InvokableLambda(func(ctx context.Context, in I) (O, error) {
 		seen(in)
-		return out(), nil
+		return out()
 	})
 }
 
